@@ -1,8 +1,12 @@
 import SqlgrepModel.Codec
 import SqlgrepModel.Model.Print
+import SqlgrepModel.Model.Reader
+import SqlgrepModel.Lemmas.PrintGrammar
 /- Driver handler for C17 cases:
 `print FMT FIRST ((SINGLE (xCOL…) ((v…)…))…) ((BITS xFIXED2 xJSON)…)` → the lines handed to `println`
-(`lines N xHEX…`), or `panic` when an index of `OutputPrinter::print` is out of range. -/
+(`lines N xHEX…`), or `panic` when an index of `OutputPrinter::print` is out of range.
+In JSON format the hypotheses of the grammar theorems (`Props/C17Json.lean`) are evaluated on the case
+(`jsonHypotheses`): a case that violated them would answer `hypothesis-violated` and show up as a disagreement. -/
 namespace Sqlgrep.Drivers.Print
 open Sqlgrep Sqlgrep.Print
 
@@ -36,12 +40,21 @@ def mkOracle (tbl : List (Nat × Bytes × Bytes)) : RealOracle :=
   { fixed2 := fun b => match tbl.find? (·.1 == b) with | some e => e.2.1 | none => [63]
     json := fun b => match tbl.find? (·.1 == b) with | some e => e.2.2 | none => [63] }
 
+/-- the hypotheses of `Props/C17Json.printed_json_lines_are_json` / `json_record_denotes_row`, evaluated:
+every column name and every TEXT payload is valid UTF-8 (`Reader.validUtf8`, which implies `IsUtf8`), and the
+text shipped for every finite REAL of the rows is a JSON number of RFC 8259 §6 (`RealTextsOk`) -/
+def jsonHypotheses (o : RealOracle) (results : List (ResultRow × Bool)) : Bool :=
+  results.all fun r =>
+    r.1.columns.all Reader.validUtf8 &&
+    r.1.rows.all fun row => row.all fun v => decide (RealTextsOk o v) && (allTexts v).all Reader.validUtf8
+
 def handle (args : List Sexp) : String :=
   match args with
   | [fmt, first, .list results, .list oracle] =>
     match format? fmt, first.nat?, results.mapM result?, oracle.mapM oracleEntry? with
     | some fmt, some first, some results, some tbl =>
       if results.any (fun r => resultPanics fmt r.1) then "panic"
+      else if fmt == .json && !jsonHypotheses (mkOracle tbl) results then "hypothesis-violated"
       else
         let lines := (printAll (mkOracle tbl) fmt (first != 0) results).map Line.bytes
         "lines " ++ toString lines.length ++ String.join (lines.map fun l => " " ++ Sexp.showBytes l)
